@@ -3,6 +3,8 @@ import genb
 from props.codec_common import *
 
 THEOREMS = ["C01_roundtrip", "C01_deterministic_idempotent", "C01_decode_encode"]
+REPEAT = 2            # case lines repeated 66 000 times on one thread (state that builds up over many calls)
+REPEAT_CMDS = ('RT',)
 RELEASE = True          # debug and release builds of the harness (debug_assert!, overflow checks, cfg(debug_assertions))
 RULE = ("RT <bundle>: the implementation encodes, decodes its own output and encodes again; bundles drawn over the C01 domain "
         "(0-40 extension blocks plus 22/23/24/25/300-block cases, every CRC type and prior CRC state per block, dtn/ipn/none "
